@@ -1154,6 +1154,7 @@ func main() {
 		"out-of-range entries, missing maps; aggregate signatures over random signer subsets with unsorted/duplicate/out-of-range/superset/subset claims; " +
 		"forced transaction types and non-script UTXO types through the hook; a script input beside a mint/deposit input; outputs repeating a key; " +
 		"Script.Validate; Verify/BatchVerify entries with known discrete logs plus small-order, mixed-order and non-canonical encodings. " +
+		"linear-cancellation families (s_i+d_i or R_i+d_i*B with the d_i cancelling for equal / period-2 / small guessed batch coefficients), through BatchVerify and through Validate on multisig inputs. " +
 		"Non-trivial = the structural stage passed (signature verification was reached) or the case was accepted; distinct by the whole scenario."
 	if c.Replay != "" {
 		var cs Case
